@@ -33,6 +33,8 @@ Decides:
  B forkers         who may clone the State (see C05).
  A marker first    whether the run is a completion request (and the tokenizer's ambiguity error therefore withheld) is read from the state
                    construct() returned - the shell stubs pass the revision marker as an ITEM, Args knows nothing of it beforehand.
+ K registry / B window  run_inner hands the tokenizer the shorts of the parser's own meta plus the help/version shorts as FLAGS (shared with C02); inside
+                        adjacent groups the window is the run of present items (shared with C19).
 Does not decide: which of several failing fields is reported for a given line."""
 import re
 from core import *
@@ -70,7 +72,11 @@ def run(ctx):
         import c02
         ctx.guard(c08.keep_only, ctx, lambda: c02.boundaries(ctx, cfg, fs), lambda o: 'byte-length' in o.key or 'width-table' in o.key, 'K.tokenized-as-flag')
         ctx.guard(c08.keep_only, ctx, lambda: c07.table(ctx, cfg, fs), lambda o: 'depth=Less' in o.key or 'depth=Greater' in o.key, 'D.deeper-outcome')
-        import c09, c06, consumers
+        import c09, c06, consumers, c19
+        # the help flag is "an item of its own" only if the tokenizer knows which shorts are flags: registry wiring of run_inner (shared with C02)
+        ctx.guard(c08.keep_only, ctx, lambda: c02.registry(ctx, cfg, fs), lambda o: 'run_inner' in o.key, 'K.tokenized-as-flag')
+        # ... and inside an adjacent group the window is the run of PRESENT items (an item consumed earlier does not end it)
+        ctx.guard(c08.keep_only, ctx, lambda: c19.contiguous(ctx, cfg, fs), lambda o: True, 'B.best-effort')
         ctx.guard(consumers.forkers, ctx, cfg, fs, 'B.best-effort')
         ctx.guard(c08.keep_only, ctx, lambda: c06.k5(ctx, cfg, fs), lambda o: 'failure-is-returned' in o.key or 'loop-stops-on-failure' in o.key, 'F.final')
         ctx.guard(c08.keep_only, ctx, lambda: c09.tokenizer(ctx, cfg, fs), lambda o: 'marker-' in o.key, 'K.tokenized-as-flag')
